@@ -135,7 +135,7 @@ def check_case(case):
         ex = closed_form(case, *geo, NEIG)
         for (m, n), v in vals.items():
             k = min(len(v), len(ex))
-            if np.any(v[:k] < ex[:k] * (1 - 1e-9)):
+            if np.any(v[:k] < ex[:k] * (1 - 1e-7)):      # dense eigen-solver noise floor at order 16 is ~1e-8
                 fails.append(fail('a Ritz eigenvalue lies below the closed-form double-sine value', sig=None, case=case, orders=[m, n],
                                   ritz=v[:k], closed_form=ex[:k]))
                 break
